@@ -19,14 +19,14 @@ RULE = ("Random nested mount tables (depth <=3, 1-4 entries per level, prefixes 
         "trailing slash (exhaustive list, sampled per table; the full list for every 40th table) x initial root paths {'', /root, /r/é}; host tables "
         "of overlapping regex patterns x Host values (exact, prefix, suffix, with port, empty, absent, upper-case). Both interfaces. Non-trivial = "
         "table with >=2 entries of which one prefix is a string prefix of another, or nesting depth >=2, or a 404 outcome; distinct = (table, path, root).")
-RULE += " Also: tables that list ONE application object under several prefixes / host patterns (the entry taken is read off the root+path the leaf sees, resp. the owning application); Host values spelling out the default port and in other letter case, non-UTF-8 path bytes behind ASCII prefixes (WSGI), root path equal to one of the table's prefixes; one Subpaths / Hosts object per table serves the whole sequence."
+RULE += " Also: 2-5 requests in flight together on one Subpaths / Hosts object whose leaves read the request late; tables that list ONE application object under several prefixes / host patterns (the entry taken is read off the root+path the leaf sees, resp. the owning application); Host values spelling out the default port and in other letter case, non-UTF-8 path bytes behind ASCII prefixes (WSGI), root path equal to one of the table's prefixes; one Subpaths / Hosts object per table serves the whole sequence."
 ASSUMPTIONS = [
     "on WSGI SCRIPT_NAME / PATH_INFO are the Latin-1 view of the bytes; the model is applied to the UTF-8 text they stand for (as on ASGI)",
     "'leaves the request untouched' is judged per mount level: at a 404 the request must equal what the innermost non-matching mount received",
     "the host pattern language is Python's re; selection order and whole-string anchoring are what is checked",
 ]
 
-PREFIXES = ["", "/a", "/ab", "/a/b", "/api", "/apix", "/é", "/a.b", "/A"]
+PREFIXES = ["", "/a", "/ab", "/a/b", "/api", "/apix", "/é", "/a.b", "/A", "/Ã©"]
 SEGS = ["a", "ab", "b", "api", "apix", ""]
 
 
@@ -38,7 +38,10 @@ def all_paths():
             for lead in ("/", ""):
                 for trail in ("/", ""):
                     out.add(lead + core + trail)
-    out |= {"/é", "/é/x", "/a.b", "/axb", "/A", "/a/b/c", "/apix/a", "/api/x/y"}
+    out |= {"/Ã©", "/Ã©/x", "/é", "/é/x", "/a.b", "/axb", "/A", "/a/b/c", "/apix/a", "/api/x/y"}
+    # a prefix followed by a line break or another control character (sent as %0A ...): not the prefix, not below it
+    out |= {p + c + t for p in ("/a", "/api", "/a/b", "/ab") for c in ("\n", "\r", "\r\n", "\x00", "\t", " ", "\x0b", "\u2028") for t in ("", "/x")}
+    out |= {"\n", "/\n", "*", "api/x"}
     return sorted(out)
 
 
@@ -260,6 +263,43 @@ def run_hosts(ctx, patterns, host, apps=None):
             ctx.violation(f"hosts|no-entry-but-status-{status}", case, "")
 
 
+def in_flight(ctx, kind, entries, reqspecs, pre=None):
+    """several requests in flight on one Subpaths / Hosts object whose leaves look at the request late (generator bodies,
+    applications that give way first): each client is answered by the leaf it would get alone, with its own root + path"""
+    import asyncio
+
+    from baize import asgi, wsgi
+    from vf import inflight
+
+    def wleaf(i):
+        def app(environ, start_response):
+            def body():
+                start_response("200 OK", [("X-Leaf", str(i))])
+                yield b"leaf %d " % i
+                yield repr((drivers.wsgi_text(environ.get("SCRIPT_NAME", "")), drivers.wsgi_text(environ.get("PATH_INFO", "")), environ.get("HTTP_HOST"))).encode()
+            return body()
+        return app
+
+    def aleaf(i):
+        async def app(scope, receive, send):
+            await asyncio.sleep(0)
+            await send({"type": "http.response.start", "status": 200, "headers": [(b"x-leaf", str(i).encode())]})
+            await asyncio.sleep(0)
+            host = dict(scope["headers"]).get(b"host", b"").decode("latin-1") or None
+            await send({"type": "http.response.body", "body": b"leaf %d " % i + repr((scope.get("root_path", ""), scope["path"], host)).encode()})
+        return app
+    for iface, ns, leaf in (("wsgi", wsgi, wleaf), ("asgi", asgi, aleaf)):
+        cls = ns.Subpaths if kind == "mounts" else ns.Hosts
+        app = cls(*[(e, leaf(i)) for i, e in enumerate(entries)])
+        reqs = [drivers.Req(path=p.encode("utf-8"), headers=[("Host", h)] if h else []) for p, h in reqspecs]
+        case = {"in_flight": kind, "entries": list(entries), "requests": [list(r) for r in reqspecs]}
+        if pre is None:
+            inflight.check_group(ctx, iface, app, reqs, kind, case)
+        else:
+            # a thread switch placed between two lines of the dispatch code (vf/inflight.py): the second request is served in between
+            inflight.check_preempted(ctx, pre, iface, app, reqs[0], reqs[1], kind, dict(case, preempted=True))
+
+
 def has_prefix_pair(table):
     ps = [p for p, _ in table]
     return any(a != b and b.startswith(a) for a in ps for b in ps)
@@ -315,6 +355,27 @@ def run(ctx):
     else:
         ctx.mon("long-lived-tables", 0)
     ctx.extra["exhaustive_path_list"] = len(PATHS)
+    for g in range(ctx.scale(40, 2000)):
+        n = rng.choice([2, 3, 5])
+        in_flight(ctx, "mounts", ["/api/v2", "/api", "/a/b", "/a", ""][:rng.randrange(2, 6)], [(rng.choice(["/api/v2/y", "/a/b/c", "/api/x", "/a/b", "/other", "/api", "/a/x", "/"]), None) for _ in range(n)])
+        in_flight(ctx, "hosts", [r"api\.example\.com", r".*\.example\.com", r"h\d+\.test", r".*"][:rng.randrange(2, 5)],
+                  [("/p%d" % k, rng.choice(["api.example.com", "x.example.com", "h7.test", "other", None])) for k in range(n)])
+        ctx.case(("in-flight", g, ctx.shard))
+    from vf import inflight
+    pre = inflight.Preemptor()
+    try:
+        for g in range(ctx.scale(16, 400)):
+            entries = ["/api/v2", "/api", "/a/b", "/a", ""][:rng.randrange(2, 6)]
+            pair = [(rng.choice(["/api/v2/y", "/a/b/c", "/api/x", "/a/b", "/other", "/api", "/a/x"]), None) for _ in range(2)]
+            if g % 2:  # both requests go through the SAME entry, with different rests of the path
+                pfx = rng.choice(entries)
+                pair = [(pfx + "/one/%d" % g, None), (pfx + rng.choice(["/two", "", "/one/%d/deeper" % g]), None)]
+            in_flight(ctx, "mounts", entries, pair, pre)
+            in_flight(ctx, "hosts", [r"api\.example\.com", r".*\.example\.com", r"h\d+\.test", r".*"][:rng.randrange(2, 5)],
+                      [("/p%d" % k, rng.choice(["api.example.com", "x.example.com", "h7.test", "other"])) for k in range(2)], pre)
+            ctx.case(("pre-empted", g, ctx.shard))
+    finally:
+        pre.close()
     for t in range(ctx.scale(1500, 40_000)):
         patterns = rng.sample(HOST_PATTERNS, rng.randrange(1, 5))
         owners = None
@@ -336,6 +397,18 @@ def _detuple(t):
 
 
 def replay(ctx, case):
+    if "in_flight" in case:
+        pre = None
+        if case.get("preempted"):
+            from vf import inflight
+            pre = inflight.Preemptor()
+        try:
+            in_flight(ctx, case["in_flight"], case["entries"], [tuple(r) for r in case["requests"]], pre)
+        finally:
+            if pre:
+                pre.close()
+        ctx.case(1)
+        return
     if "table" in case:
         path = case["path"]
         if isinstance(path, dict):
